@@ -12,5 +12,5 @@ FUNCTIONS = ['uxarray.core.dataarray.UxDataArray._copy',
 STANDINS = ["xarray_ops"]
 ASSUMPTIONS = []
 EXPLANATION = ""
-LEVEL_TEXT = "_copy and _replace hooks proved to re-attach the grid (deep copy: Grid.copy result) whatever xarray's base implementation returns; catalogue of ~110 xarray operations and depth-2 compositions bounded"
-LEVEL_NOTE = 'that every xarray operation routes through these hooks is third-party behaviour (16 known findings show it does not with the installed xarray); Grid.copy assumed here'
+LEVEL_TEXT = "_copy and _replace hooks proved to re-attach the grid (deep copy: Grid.copy result) whatever xarray's base implementation returns; Grid.copy proved to construct a NEW Grid from a DEEP copy of the dataset (same format tag / dimension map); _slice_from_grid proved to attach the sliced grid; catalogue of ~110 xarray operations and depth-2 compositions bounded"
+LEVEL_NOTE = 'that every xarray operation routes through these hooks is third-party behaviour (16 known findings show it does not with the installed xarray)'
